@@ -359,7 +359,8 @@ pub fn metrics_contention(rounds: u64) -> LiveResult {
         }
         let _ = c.wait();
         let threads = 8u64;
-        let per = 40_000u64;
+        // long enough that the eight threads overlap on real cores even on a loaded machine
+        let per = 250_000u64;
         let gate = Arc::new(AtomicU64::new(0));
         let hs: Vec<_> = (0..threads)
             .map(|t| {
@@ -832,4 +833,92 @@ pub fn reentrant_callbacks(rounds: u64) -> LiveResult {
         }
     }
     LiveResult { scenario: "reentrant_callbacks", rounds, violations, detail }
+}
+
+/// C11 / C04 / C06: a clear() that finds only Delete items in flight. Keys are inserted and applied, every
+/// one of them is removed again without waiting (the store is empty, the removal items are still
+/// queued), then the cache is cleared. After `clear()` and `wait()` have returned nothing may be charged
+/// (the cleared cache is a fresh one), and the same keys, inserted again, are all admitted and resident:
+/// their combined cost is a fraction of max_cost. Sound for every timing: whichever of the removal items
+/// the processor applied before it took the clear request, the state after the clear is the empty one.
+pub fn clear_after_removes(rounds: u64, prop: &str) -> LiveResult {
+    let charges_judged = prop != "C04";
+    mark_client_pub();
+    let mut violations = 0u64;
+    let mut detail = String::new();
+    let n = 32u64;
+    let judge = |who: &str, r: u64, used: i64, charged: usize, back: u64, len: usize, violations: &mut u64, detail: &mut String| {
+        if charges_judged && (used != 0 || charged != 0) {
+            note(violations, detail, format!(
+                "{} round {}: {} keys inserted and applied, all removed, then clear() and wait() returned; the policy still charges {} keys, used = {}: the cleared cache is not a fresh one",
+                who, r, n, charged, used
+            ));
+        } else if back != n || len != n as usize {
+            note(violations, detail, format!(
+                "{} round {}: {} keys inserted and applied, all removed, clear() and wait() returned, the same keys inserted again (combined cost {} of max_cost 1000) and wait() returned: only {} of them are retrievable, len() = {}",
+                who, r, n, n, back, len
+            ));
+        }
+    };
+    for r in 0..rounds {
+        // sync flavour
+        {
+            let c = build_sync(256, 1000, 4096, 64, Duration::from_secs(3600), 0, true, RecCallback::default());
+            for k in 0..n {
+                let _ = c.insert(mk_key(k, 0), k, 1);
+            }
+            let _ = c.wait();
+            for k in 0..n {
+                c.remove(&mk_key(k, 0));
+            }
+            let _ = c.clear();
+            let _ = c.wait();
+            let snap = stretto::verif::cache_snapshot(&c, |v| *v);
+            let (used, charged) = (snap.policy.used, snap.policy.charges.len());
+            for k in 0..n {
+                let _ = c.insert(mk_key(k, 0), 100 + k, 1);
+            }
+            let _ = c.wait();
+            let back = (0..n).filter(|k| c.get(&mk_key(*k, 0)).map(|v| *v.value()) == Some(100 + k)).count() as u64;
+            let len = c.len();
+            let _ = c.close();
+            judge("Cache", r, used, charged, back, len, &mut violations, &mut detail);
+        }
+        // async flavour: current-thread runtime (the processor cannot run between the removes and the
+        // clear) on even rounds, multi-thread runtime on odd ones
+        let rt = if r % 2 == 0 {
+            tokio::runtime::Builder::new_current_thread().enable_time().build().expect("tokio")
+        } else {
+            tokio::runtime::Builder::new_multi_thread().worker_threads(3).enable_time().build().expect("tokio")
+        };
+        let (used, charged, back, len) = rt.block_on(async move {
+            let c = build_async(256, 1000, 4096, 64, Duration::from_secs(3600), RecCallback::default());
+            for k in 0..n {
+                let _ = c.insert(mk_key(k, 0), k, 1).await;
+            }
+            let _ = c.wait().await;
+            for k in 0..n {
+                c.remove(&mk_key(k, 0)).await;
+            }
+            let _ = c.clear().await;
+            let _ = c.wait().await;
+            let snap = stretto::verif::async_cache_snapshot(&c, |v| *v);
+            let (used, charged) = (snap.policy.used, snap.policy.charges.len());
+            for k in 0..n {
+                let _ = c.insert(mk_key(k, 0), 100 + k, 1).await;
+            }
+            let _ = c.wait().await;
+            let mut back = 0u64;
+            for k in 0..n {
+                if c.get(&mk_key(k, 0)).await.map(|v| *v.value()) == Some(100 + k) {
+                    back += 1;
+                }
+            }
+            let len = c.len();
+            let _ = c.close().await;
+            (used, charged, back, len)
+        });
+        judge(if r % 2 == 0 { "AsyncCache (tokio current-thread)" } else { "AsyncCache (tokio multi-thread)" }, r, used, charged, back, len, &mut violations, &mut detail);
+    }
+    LiveResult { scenario: "clear_after_removes", rounds, violations, detail }
 }
